@@ -92,13 +92,16 @@ def replay(item):
         p, name, act, arg = paths[s["path"]], s["path"], s["act"], s["arg"]
         ok, echo, note = False, True, ""
         try:
-            if act in ("write", "amend", "dry"):
+            if act in ("write", "amend", "dry", "write_mutated", "dry_amend"):
                 kw = {"target_path": p}
-                if act == "amend":
+                if act in ("amend", "dry_amend"):
                     kw["changes"] = pyreq([arg["req"]], False)[0]
                 else:
                     kw["content"] = lines_text(arg["lines"], arg["final"])
-                if act == "dry":
+                if act == "write_mutated":
+                    ch = pyreq([arg["req"]], False)[0]
+                    kw["mutations"] = {next(iter(ch))[5:]: next(iter(ch.values()))}
+                if act in ("dry", "dry_amend"):
                     kw["corrections_only"] = True
                 if arg["hash"] == "match":
                     kw["base_hash"] = hashlib.sha256(before[name]).hexdigest()
@@ -109,7 +112,7 @@ def replay(item):
                 if arg["hash"] == "stale":
                     echo = any(e.get("code") == "E_HASH" for e in r.get("errors", []))
                     note = "errors=%s" % json.dumps(r.get("errors"))[:200]
-                elif ok and act != "dry":
+                elif ok and act not in ("dry", "dry_amend"):
                     with open(p, "rb") as f:
                         echo = r.get("canonical_hash") == hashlib.sha256(f.read()).hexdigest()          # the hash handed out binds the bytes installed
                     note = "canonical_hash"
@@ -203,7 +206,7 @@ def run_system(ctx):
     for r in recs:
         if r["i"] in fails:
             lf = ls[r["life"]]
-            hist = [{"act": s["act"], "path": s["path"], "hash": s["arg"]["hash"], "req": s["arg"]["req"] if s["act"] == "amend" else "-",
+            hist = [{"act": s["act"], "path": s["path"], "hash": s["arg"]["hash"], "req": s["arg"]["req"] if s["act"] in ("amend", "dry_amend", "write_mutated") else "-",
                      "content": lines_text(s["arg"]["lines"], s["arg"]["final"]) if s["arg"]["lines"] else ""} for s in lf["log"][:r["j"] + 1]]
             failures.append({"i": r["i"], "case": {"system_life": hist}, "obs": dict(r["obs"], note=r["note"]), "fails": ["System:" + c for c in fails[r["i"]]],
                              "system": True})
